@@ -701,6 +701,8 @@ def run(pid, tier, replay=None):
             handover.stage_adversarial(chk, quick, rng, pid, cfg, keys, build_universe, lambda w_, b_: b_[7], "reward_above_subsidy_plus_fees")
         if pid == "C12":
             handover.stage_stale_snapshot(chk, pid, cfg, keys, build_universe)
+            handover.stage_full_block(chk, pid, keys)
+            sk.apply_cfg(cfg)
             # ---- the found block sent back by a neighbour while the miner's thread is still handling it (Echo)
             from checks import echo
             sk.apply_cfg(cfg)
